@@ -521,6 +521,9 @@ class WebSocket:
             If None, it will wait forever until receive a close frame.
         """
         if not self.connected:
+            # no closing handshake to run (never connected, or a close frame
+            # was already exchanged): just release the transport, if any.
+            self.shutdown()
             return
         if status < 0 or status >= ABNF.LENGTH_16:
             raise ValueError("code is invalid range")
